@@ -37,15 +37,20 @@ def _c06_unit_jobs():
                     "deserialize identity, default value through serialize_default/request_property"),
     ]
     for (cid, name) in _CODECS6:
-        big = cid >= 18   # vector codecs (8..32 bytes per element): 2 elements in the quick tier, 3 in the thorough tier
-        for tier, nel in (("quick", 2 if big else 3), ("thorough", 3)):
-            if tier == "thorough" and not big: continue
-            J.append(dict(name="propcodec-%s%s" % (name, "" if tier == "quick" else "-n3"), harness="C06_propcodecs.cpp", units=_IO_PC6, unwind=64, eh=True, checks="mem",
-                          timeout=300 if tier == "quick" else 1500, mem_gb=6, tiers=[tier] if big else ["quick", "thorough"],
-                          defines=["CODEC=%d" % cid, "NELEM=%d" % nel], ll2c_flags=["--drop-ctor=PropertyCodecs.cc"], entries=["harness_roundtrip_n", "harness_roundtrip_default"],
-                          bounds="codec '%s': property of %d elements with symbolic values (floating point as arbitrary bit patterns incl. NaNs), symbolic span {first,count}: serialize -> "
-                                 "count*elemsize bytes in the published little-endian layout -> deserialize restores exactly the span; symbolic default value through "
-                                 "serialize_default -> request_property (decode_one)" % (name, nel)))
+        big = cid >= 18      # vector codecs (8..32 bytes per element): 2 elements in the quick tier, 3 in the thorough tier
+        heavy = name in ("3d", "4d")   # measured on the loaded machine: 3d 245 s, 4d > 300 s for roundtrip_n with 2 elements -> thorough tier only
+        pc = dict(harness="C06_propcodecs.cpp", units=_IO_PC6, unwind=64, eh=True, checks="mem", mem_gb=6, ll2c_flags=["--drop-ctor=PropertyCodecs.cc"])
+        b = ("codec '%s': property of %d elements with symbolic values (floating point as arbitrary bit patterns incl. NaNs), symbolic span {first,count}: serialize -> "
+             "count*elemsize bytes in the published little-endian layout -> deserialize restores exactly the span; symbolic default value through "
+             "serialize_default -> request_property (decode_one)")
+        if not big:
+            J.append(dict(name="propcodec-%s" % name, entries=["harness_roundtrip_n", "harness_roundtrip_default"], defines=["CODEC=%d" % cid, "NELEM=3"], timeout=300, bounds=b % (name, 3), **pc))
+            continue
+        J.append(dict(name="propcodec-%s" % name, entries=(["harness_roundtrip_default"] if heavy else ["harness_roundtrip_n", "harness_roundtrip_default"]),
+                      defines=["CODEC=%d" % cid, "NELEM=2"], timeout=300, tiers=["quick"],
+                      bounds=(b % (name, 2)) + (" [quick tier: default value only; the n-element round trip of this codec is in the thorough tier]" if heavy else ""), **pc))
+        J.append(dict(name="propcodec-%s-n3" % name, entries=["harness_roundtrip_n", "harness_roundtrip_default"], defines=["CODEC=%d" % cid, "NELEM=3"], timeout=1500, tiers=["thorough"],
+                      solvers=["minisat", "cadical"], bounds=b % (name, 3), **pc))
     return J
 
 if "C06" not in PROPS:
